@@ -5,9 +5,11 @@ package main
 import (
 	"bytes"
 	"context"
+	"crypto/x509"
 	"fmt"
 	"io"
 	"os"
+	"path/filepath"
 	"strconv"
 	"sync"
 
@@ -16,6 +18,7 @@ import (
 	"github.com/fido-device-onboard/go-fdo/kex"
 	"github.com/fido-device-onboard/go-fdo/protocol"
 	"github.com/fido-device-onboard/go-fdo/serviceinfo"
+	"github.com/fido-device-onboard/go-fdo/sqlite"
 
 	"verif/internal/keys"
 	"verif/internal/lab"
@@ -61,9 +64,120 @@ func (m *ownMod) ProduceInfo(ctx context.Context, p *serviceinfo.Producer) (bool
 	return false, true, nil
 }
 
+// sqliteRun: the same onboardings against ONE server object that plays every role over ONE SQLite database (one
+// handler, one set of responders, one state store, as the property words it).
+func sqliteRun(n, rounds int) {
+	ctx := context.Background()
+	ok, failed := 0, 0
+	var details []string
+	var mu sync.Mutex
+	base := "/dev/shm"
+	if _, err := os.Stat(base); err != nil {
+		base = "/var/tmp"
+	}
+	for round := 0; round < rounds; round++ {
+		dir, err := os.MkdirTemp(base, "verif-c19-")
+		if err != nil {
+			panic(err)
+		}
+		db, err := sqlite.Open(filepath.Join(dir, "all.sqlite"), "")
+		if err != nil {
+			panic(err)
+		}
+		for _, kk := range keys.Kinds {
+			key := keys.Get(kk.Alg, "owner1")
+			chain := []*x509.Certificate{keys.SelfSigned(kk.Alg+"-owner1", key)}
+			_ = db.AddOwnerKey(kk.Type, key, chain)
+			_ = db.AddManufacturerKey(kk.Type, key, chain)
+		}
+		srv := lab.NewServer("sql", "owner1", db, noModules{})
+		if os.Getenv("VERIF_PREWARM") != "" {
+			if t, err := db.NewToken(ctx, protocol.DIProtocol); err == nil {
+				_ = db.InvalidateToken(db.TokenContext(ctx, t))
+			}
+		}
+		roles := []string{"device", "device2", "stranger"}
+		var wg sync.WaitGroup
+		for i := 0; i < n; i++ {
+			wg.Add(1)
+			go func(i int) {
+				defer wg.Done()
+				kind := keys.Kinds[i%len(keys.Kinds)]
+				err := func() error {
+					d := lab.NewDevice(kind, protocol.X509KeyEnc, roles[i%len(roles)])
+					if err := d.DI(ctx, lab.NewWire(srv).Transport()); err != nil {
+						return fmt.Errorf("DI: %w", err)
+					}
+					ov, err := db.RemoveVoucher(ctx, d.Cred.GUID)
+					if err != nil {
+						return fmt.Errorf("voucher after DI: %w", err)
+					}
+					x, err := lab.Extend(ov, keys.Get(kind.Alg, "owner1"), keys.Get(kind.Alg, "owner1"), kind)
+					if err != nil {
+						return fmt.Errorf("extend: %w", err)
+					}
+					if err := db.AddVoucher(ctx, x); err != nil {
+						return fmt.Errorf("add voucher: %w", err)
+					}
+					c := &fdo.TO0Client{Vouchers: db, OwnerKeys: db, TTL: 3600}
+					if _, err := c.RegisterBlob(ctx, lab.NewWire(srv).Transport(), d.Cred.GUID, lab.DefaultAddrs()); err != nil {
+						return fmt.Errorf("TO0: %w", err)
+					}
+					to1d, err := d.TO1(ctx, lab.NewWire(srv).Transport())
+					if err != nil {
+						return fmt.Errorf("TO1: %w", err)
+					}
+					cred, err := fdo.TO2(ctx, lab.NewWire(srv).Transport(), to1d, d.TO2Config(lab.DefaultSuite(kind), kex.A128GcmCipher))
+					if err != nil {
+						return fmt.Errorf("TO2: %w", err)
+					}
+					if cred == nil {
+						return fmt.Errorf("no replacement credential")
+					}
+					nv, err := db.Voucher(ctx, cred.GUID)
+					if err != nil {
+						return fmt.Errorf("replacement voucher: %w", err)
+					}
+					nb, _ := cbor.Marshal(nv)
+					if s := lab.Agree(cred, d, nb); s != "" {
+						return fmt.Errorf("voucher and credential disagree: %s", s)
+					}
+					return nil
+				}()
+				mu.Lock()
+				if err != nil {
+					failed++
+					if len(details) < 5 {
+						details = append(details, fmt.Sprintf(" [sqlite device %d: %v]", i, err))
+					}
+				} else {
+					ok++
+				}
+				mu.Unlock()
+			}(i)
+		}
+		wg.Wait()
+		_ = db.Close()
+		_ = os.RemoveAll(dir)
+	}
+	fmt.Printf("RESULT ok=%d failed=%d%s\n", ok, failed, fmt.Sprint(details))
+}
+
+type noModules struct{}
+
+func (noModules) Module(context.Context) (string, serviceinfo.OwnerModule, error) {
+	return "", nil, fmt.Errorf("no module")
+}
+func (noModules) NextModule(context.Context) (bool, error) { return false, nil }
+func (noModules) CleanupModules(context.Context)           {}
+
 func main() {
 	n, _ := strconv.Atoi(os.Args[1])
 	rounds, _ := strconv.Atoi(os.Args[2])
+	if len(os.Args) > 3 && os.Args[3] == "sqlite" {
+		sqliteRun(n, rounds)
+		return
+	}
 	ctx := context.Background()
 	ok, failed := 0, 0
 	var details []string
